@@ -485,7 +485,7 @@ def shards(tier):
         for n in range(d2 + 1):
             if mode == "owner" and n > 0 and tier == "quick":
                 continue
-            of = 1 if n < 2 else 8 * (n - 1)
+            of = 1 if n < 2 else (8 if tier == "quick" else 24) * (n - 1)
             for c in range(of):
                 out.append({"kind": "depth2", "mode": mode, "n": n,
                             "chunk": c, "of": of})
